@@ -426,6 +426,15 @@ func c04Type5Request(p *Prog, r *Report, R1 string) {
 						if !ok {
 							continue
 						}
+						// element i = bytes.Clone(list[32*i : 32*i+32]) (or append([]byte(nil), ...)): a fresh copy of the window
+						if vt := s.Of(st.Val); vt.Op == "call" && (vt.Name == "bytes.Clone" || vt.Name == "slices.Clone") && len(vt.Args) == 1 && vt.Args[0].Op == "slice" && len(vt.Args[0].Args) == 3 && vt.Args[0].Args[0].String() == list {
+							i := s.Of(ixa.Index).String()
+							lo, hi := vt.Args[0].Args[1].String(), vt.Args[0].Args[2].String()
+							if (lo == "bin<*>(const:32, "+i+")" || lo == "bin<*>("+i+", const:32)") && (hi == "bin<+>(const:32, "+lo+")" || hi == "bin<+>("+lo+", const:32)") {
+								okEl = true
+							}
+							continue
+						}
 						win, ok := st.Val.(*ssa.Slice)
 						if !ok || win.Low == nil || win.High == nil {
 							continue
@@ -1206,6 +1215,17 @@ func c04BatchRequest(p *Prog, r *Report, R4 string) {
 			}
 		}
 	}
+	// the same walk written with a shrinking slice as its cursor:
+	//   rest := data[off : off+l]; for len(rest) > 0 { tag(rest[:2]); x.Unmarshal(rest); rest = rest[len(x.Marshal()):] }
+	if !okPos {
+		if ph, isPhi := u.Common().Args[0].(*ssa.Phi); isPhi {
+			okCursor, why := c04SliceCursor(p, s, fn, ph, u, recv)
+			r.Check(okCursor, R4, name+": each element is decoded from within the declared list", p.InstrPos(u), "cursor = data[off:off+declared length], shrunk from the front only", why)
+			r.Check(okCursor, R4, name+": tag and element are read at the same offset of the input", p.InstrPos(u), "tag = cursor[:2], element decoded from cursor", why)
+			r.Check(okCursor, R4, name+": advance by the re-encoded length of the element just decoded", p.InstrPos(u), "cursor = cursor[len(elem.Marshal()):] behind elem.Unmarshal(cursor) == true", why)
+			return
+		}
+	}
 	okPos = okPos && tagFrom != "" && elemBytes.Args[1].String() == tagFrom
 	// the element is confined to the declared list: decoded from data[i:end] with
 	// end = offset + declared length (an open-ended data[i:] lets an element
@@ -1423,4 +1443,74 @@ func c04BatchResponses(p *Prog, r *Report, R4 string, ne1, nk1, nk2 int64) {
 		}
 	}
 	r.Check(st["0"] && st["1"] && len(st) == 2, R4, name+": status byte 0 = absent, 1 = present, others rejected", p.Pos(rfn.Pos()), "compares with 0 and 1", fmt.Sprintf("status byte compared with %v", st))
+}
+
+// c04SliceCursor: the batch walker keeps its position as a slice `ph` (a loop
+// header phi): entered as data[off : off+declared], every way round the loop
+// replaces it by ph[len(x.Marshal()):] for the element x just decoded from ph
+// itself, and the tag is read from ph[:2].
+func c04SliceCursor(p *Prog, s *Sym, fn *ssa.Function, ph *ssa.Phi, u ssa.CallInstruction, recv ssa.Value) (bool, string) {
+	var loop *Loop
+	for _, l := range naturalLoops(fn) {
+		if l.Header == ph.Block() {
+			loop = l
+		}
+	}
+	if loop == nil {
+		return false, "the cursor is not a loop variable"
+	}
+	cv := "call<quicwire.ConsumeVarint>(param:1)"
+	nIn := 0
+	for i, e := range ph.Edges {
+		if !loop.Blocks[ph.Block().Preds[i]] {
+			t := s.Of(e)
+			if t.Op != "slice" || len(t.Args) != 3 || t.Args[0].String() != "param:1" {
+				return false, "the cursor does not start as a sub-slice of the input: " + clip(t.String(), 160)
+			}
+			hi := t.Args[2].String()
+			if hi == "const:nil" || !strings.Contains(hi, "extract<0>("+cv+")") || !strings.Contains(hi, "extract<1>("+cv+")") {
+				return false, "the cursor is not bounded by the declared end of the list: " + clip(t.String(), 200)
+			}
+			continue
+		}
+		nIn++
+		sl, ok := e.(*ssa.Slice)
+		if !ok || sl.X != ssa.Value(ph) || sl.Low == nil || sl.High != nil {
+			return false, "the cursor is not advanced by dropping a prefix of itself"
+		}
+		lc, ok := sl.Low.(*ssa.Call)
+		if !ok {
+			return false, "the advance is not len(elem.Marshal())"
+		}
+		if b, isB := lc.Call.Value.(*ssa.Builtin); !isB || b.Name() != "len" {
+			return false, "the advance is not len(elem.Marshal())"
+		}
+		mc, ok := lc.Call.Args[0].(*ssa.Call)
+		if !ok || !mc.Call.IsInvoke() || mc.Call.Method.Name() != "Marshal" || mc.Call.Value != recv {
+			return false, "the advance is not the re-encoded length of the element just decoded"
+		}
+		uc, isCall := u.(*ssa.Call)
+		if !isCall || !s.factsHaveCallSuccess(sl.Block(), uc) {
+			return false, "the advance is not behind elem.Unmarshal(cursor) == true"
+		}
+	}
+	if nIn == 0 {
+		return false, "the cursor never advances"
+	}
+	// the tag: two bytes at the front of the cursor
+	tagOK := false
+	for _, site := range sitesIn(fn, func(n string) bool { return strings.HasSuffix(n, "bigEndian).Uint16") }) {
+		args := site.Common().Args
+		sl, ok := args[len(args)-1].(*ssa.Slice)
+		if ok && sl.X == ssa.Value(ph) && (sl.Low == nil || isZeroConst(sl.Low)) {
+			tagOK = true
+		}
+		if args[len(args)-1] == ssa.Value(ph) {
+			tagOK = true
+		}
+	}
+	if !tagOK {
+		return false, "the tag is not read from the front of the cursor"
+	}
+	return true, ""
 }
